@@ -950,7 +950,14 @@ class Constraints:
         # delta: 3
 
         if decimals >= delta:
-            return round(value, decimals - delta)
+            result = round(value, decimals - delta)
+            if cls._parse_decimal(result)[0] > max_digits:
+                # a rounding carry added a digit (99.95 -> 100.0)
+                if decimals == delta:
+                    # no decimal places left to give up
+                    raise ValueError
+                return cls.lax_max_digits(result, max_digits)
+            return result
         raise ValueError
 
     @classmethod
